@@ -13,7 +13,7 @@ RULE = (
     "objects; query of 2-60 identifiers mixing present, absent and directory ids, shallow or expanded, jobs 1/4; status() and "
     "compare_status(check_deleted True/False) compared with independent os.walk listings.  (b,c) case = history of 4-12 steps "
     "sharing one ObjectDBIndex: closed transfer (fault-free or with a failing subset), external deletion of a file or directory "
-    "object, status query, compare_status; after every dvc-data step the index content is checked against the upload log and the "
+    "object, status query (shallow or expanded), compare_status, expanded transfer (directories only, shallow=False), a directory object vanishing from the source right after the status query (listing still in a separate cache); optionally a second unrelated store with its own index alive in the same process (nothing is sent to it: its index must stay empty); after every dvc-data step the index content is checked against the upload log and the "
     "directory objects present.  non-trivial = query with both existing and missing ids / history with a failure or a "
     "deletion; distinct = hash of the case"
 )
@@ -24,7 +24,7 @@ ASSUMPTIONS = [
 ]
 MONITORS = ("status answers vs os.walk listing; FaultyFS counters prove both lookup strategies ran; wrappers on ObjectDBIndex.update/clear "
             "log what was indexed; index content vs upload log + present directory objects after every step")
-REQUIRED_COUNTERS = ["handle_wrote_before_foreign_writes", "source_lost_files", "unprotected_valid_objects", "two_handle_histories", "status_queries", "strategy/per-object-exists", "strategy/traverse", "compare_status_calls", "expanded_queries",
+REQUIRED_COUNTERS = ["histories_with_second_store_index", "second_store_queries", "expanded_transfer_steps", "dir_vanished_mid_transfer_steps", "expanded_status_queries_with_index", "handle_wrote_before_foreign_writes", "source_lost_files", "unprotected_valid_objects", "two_handle_histories", "status_queries", "strategy/per-object-exists", "strategy/traverse", "compare_status_calls", "expanded_queries",
                      "histories", "history_steps", "index_checks", "index_updates_seen", "index_clears_seen", "external_deletions",
                      "failed_transfer_steps", "indexed_dir_exists_checked", "store/local", "store/remote", "store/base"]
 
@@ -189,6 +189,16 @@ def run_shard(ctx):
             res.count("two_handle_histories")
         index = handles[0]
         ids, shallow, denoted = sc.closed_request(expanded=False)
+        # a second, unrelated store with its own index, alive in the same process (primary + backup remote): nothing is ever sent to it
+        other_idx = other_odb = None
+        if rng.random() < 0.5:
+            other_odb, _ofs = mk_store(rng, os.path.join(d, "other-store"), "remote")
+            other_idx = ObjectDBIndex(os.path.join(d, "idx-other"), "other")
+            res.count("histories_with_second_store_index")
+        # the listings are also available from a separate cache (so that a directory object can vanish from the source mid-transfer)
+        treecache = env.local_odb(os.path.join(d, "treecache"))
+        for t in sc.trees:
+            put(treecache.path, t["oid"], sc.blobs[t["oid"]])
         delivered = set()
         log = []
         res.evaluated()
@@ -211,8 +221,25 @@ def run_shard(ctx):
                 return orig(self)
             return w
 
+        def check_other(step):
+            if other_idx is not None:
+                foreign = sorted(set(other_idx))
+                if not foreign and rng.random() < 0.5:
+                    # a files-only query on the other store through its own index
+                    fq = {env.HI("md5", o) for o in sorted(sc.file_oids())[:4]}
+                    stx = status(other_odb, fq, index=other_idx, cache_odb=sc.src)
+                    foreign = sorted(h.value for h in stx.exists)
+                    res.count("second_store_queries")
+                if foreign:
+                    res.violation(f"index-holds-undelivered-id/index-of-another-store/after-{step}",
+                                  f"nothing was ever sent to the second store, yet its index / status knows {foreign[:2]}", case=case, detail={"log": log[-10:]})
+
         def check_index(step, validated=False):
             res.count("index_checks")
+            # either index may be the first one read after the step
+            other_first = rng.random() < 0.5
+            if other_first:
+                check_other(step)
             held = set(handles[0])
             if validated:
                 # a query that named a directory validates every indexed directory: a stale index is cleared
@@ -231,6 +258,8 @@ def run_shard(ctx):
                         listed.add(o)
                     except ValueError:
                         pass
+            if not other_first:
+                check_other(step)
             invented = sorted(o for o in held if o not in delivered and o not in listed)
             if invented:
                 res.violation(f"index-holds-undelivered-id/after-{step}",
@@ -241,7 +270,8 @@ def run_shard(ctx):
             for _step in range(rng.randrange(4, 13)):
                 res.count("history_steps")
                 index = rng.choice(handles)
-                op = rng.choice(["transfer", "transfer", "failing-transfer", "delete-file", "delete-dir", "status", "compare", "source-loses-file"])
+                op = rng.choice(["transfer", "transfer", "failing-transfer", "delete-file", "delete-dir", "status", "status", "compare", "source-loses-file",
+                                 "expanded-transfer", "dir-vanishes-mid-transfer"])
                 if op == "source-loses-file":
                     objs_d, _t, _s = list_store(sc.dest_root)
                     cands = sorted(o for o in sc.file_oids() if o not in objs_d and os.path.exists(sc.src_path(o)))
@@ -252,6 +282,41 @@ def run_shard(ctx):
                         res.count("source_lost_files")
                         interesting = True
                         log.append((op, o))
+                    continue
+                if op == "expanded-transfer":
+                    # the request names directories only; transfer expands them (shallow=False)
+                    sub = {t["hi"] for t in sc.trees if rng.random() < 0.7} or {sc.trees[0]["hi"]}
+                    with UploadFaults(sc, frozenset()) as uf:
+                        r = transfer(sc.src, sc.dest, sub, jobs=rng.choice([1, 4]), dest_index=index, cache_odb=rng.choice([sc.src, treecache]), shallow=False)
+                    delivered.update(os.path.relpath(p, sc.dest_root).replace(os.sep, "") for p in sc.fs.puts(ok=True))
+                    log.append((op, len(sub), len(r.transferred), len(r.failed)))
+                    res.count("expanded_transfer_steps")
+                    check_index(op, validated=True)
+                    continue
+                if op == "dir-vanishes-mid-transfer":
+                    # a directory object is removed from the source right after the status query (concurrent gc); its listing is
+                    # still loadable from the separate cache
+                    objs_d, _t, _s = list_store(sc.dest_root)
+                    cands = [t for t in sc.trees if t["oid"] not in objs_d and os.path.exists(sc.src_path(t["oid"]))]
+                    if not cands:
+                        continue
+                    tv = rng.choice(cands)
+
+                    def vanish(_st, tv=tv):
+                        pth = sc.src_path(tv["oid"])
+                        if os.path.exists(pth):
+                            os.chmod(pth, 0o644)
+                            os.unlink(pth)
+
+                    sub = {tv["hi"]} | {env.HI("md5", v) for v in tv["listing"].values()}
+                    with UploadFaults(sc, frozenset()) as uf:
+                        r = transfer(sc.src, sc.dest, sub, jobs=rng.choice([1, 4]), dest_index=index, cache_odb=treecache, validate_status=vanish)
+                    delivered.update(os.path.relpath(p, sc.dest_root).replace(os.sep, "") for p in sc.fs.puts(ok=True))
+                    put(sc.src_root, tv["oid"], sc.blobs[tv["oid"]])  # comes back (fetched again) for the later steps
+                    log.append((op, tv["oid"], len(r.transferred), len(r.failed)))
+                    res.count("dir_vanished_mid_transfer_steps")
+                    interesting = True
+                    check_index(op, validated=True)
                     continue
                 if op in ("transfer", "failing-transfer"):
                     fo = sorted(sc.file_oids() | {t["oid"] for t in sc.trees})
@@ -281,9 +346,14 @@ def run_shard(ctx):
                         log.append((op, o))
                 elif op == "status":
                     sub = {i for i in ids if rng.random() < 0.8} or ids
-                    st = status(sc.dest, sub, index=index, cache_odb=sc.src, jobs=rng.choice([1, 4]))
+                    exp_q = rng.random() < 0.4
+                    if exp_q:
+                        sub = {i for i in sub if i.isdir} or {sc.trees[0]["hi"]}
+                        res.count("expanded_status_queries_with_index")
+                    st = status(sc.dest, sub, index=index, cache_odb=rng.choice([sc.src, treecache]), jobs=rng.choice([1, 4]), shallow=not exp_q)
                     objs, _t, _s = list_store(sc.dest_root)
-                    log.append(("status", len(sub), len(st.exists)))
+                    log.append(("status", len(sub), len(st.exists), "expanded" if exp_q else "shallow"))
+                    # (files listed by a directory object that is present are assumed to exist: only directories are judged below)
                     for h in st.exists:
                         if h.isdir:
                             res.count("indexed_dir_exists_checked")
@@ -311,6 +381,8 @@ def run_shard(ctx):
         res.sample({"history": log[:10]})
         for h in handles:
             h.close()
+        if other_idx is not None:
+            other_idx.close()
         env.reset_staging()
         ctx.drop(d)
 
